@@ -70,6 +70,69 @@ def c20_r1(ctx):
                 fg = _struct_of(prog, mod, gu[0].func.id)
                 ctx.ob("StructFile.write_%s <-> get_%s" % (t, t), fg == fw and gsz == struct.calcsize(fw or "!B"),
                        "positional getter uses the same struct and size", detail="unpack %r, get(pos, %s)" % (fg, gsz), loc=g.loc)
+    # arrays are stored big-endian: every path that fills an array from the file byteswaps it on little-endian hosts before
+    # returning it, and every path that writes one byteswaps (a copy) first -- on the real-file path and the buffer path alike
+    from ..typestate import TypeState
+    base_sf = sf
+    for cls in [base_sf] + prog.subclasses(base_sf, strict=True):
+        for mname, mode in (("read_array", "r"), ("get_array", "r"), ("write_array", "w")):
+            f = cls.methods.get(mname)
+            if f is None:
+                continue
+            fills = [c for c in norm.calls_in(f.node) if norm.call_name(c) in ("fromfile", "array_frombytes", "frombytes", "fromstring")]
+            sinks = [c for c in norm.calls_in(f.node) if norm.call_name(c) in ("tofile", "array_tobytes", "tobytes", "tostring")]
+            if mode == "r" and not fills:
+                continue  # delegates (e.g. get_array = seek + read_array)
+            if mode == "w" and not sinks:
+                continue
+            ctx.saw(f)
+
+            def classify(func, call, res, concrete):
+                nm = norm.call_name(call)
+                if nm in ("fromfile", "array_frombytes", "frombytes", "fromstring"):
+                    return "fill"
+                if nm == "byteswap":
+                    return "swap"
+                if nm in ("tofile", "array_tobytes", "tobytes", "tostring"):
+                    return "sink"
+                return None
+
+            def edge_event(func, node, label):
+                if node.kind == "test" and norm.canon(node.ast) == "IS_LITTLE" and label[0] == "F":
+                    return "bigendian"
+                return None
+
+            def stmt_event(func, node):
+                return "return" if node.kind == "return" else None
+            if mode == "r":
+                def delta(state, ev):
+                    if state == "BAD":
+                        return state
+                    if ev == "fill":
+                        return "RAW"
+                    if ev in ("swap", "bigendian") and state == "RAW":
+                        return "OK"
+                    if ev == "return" and state == "RAW":
+                        return "BAD"
+                    return state
+                s0 = "START"
+            else:
+                def delta(state, ev):
+                    if state == "BAD":
+                        return state
+                    if ev in ("swap", "bigendian"):
+                        return "OK"
+                    if ev == "sink" and state == "RAW":
+                        return "BAD"
+                    return state
+                s0 = "RAW"
+            ts = TypeState(prog, calls_of(prog), delta, classify, stmt_event=stmt_event, edge_event=edge_event, max_depth=0)
+            ts.all_states = ("START", "RAW", "OK")
+            exits = ts.run(f, cls, s0)
+            bad = exits.get("BAD")
+            ctx.ob(f, bad is None and bool(exits), "the array is byteswapped on little-endian hosts on every path" if mode == "r"
+                   else "the array is byteswapped (little-endian hosts) before it is written on every path",
+                   path=cfgmod.path_text(bad) if bad else None)
     if n < 6:
         raise AnalysisError("only %d StructFile accessor pairs recognised" % n)
 
@@ -115,6 +178,25 @@ def c20_r2(ctx):
     wrap = [st for st in rks if isinstance(st, ast.If) and RK.eq(st.test, "slotpos == tablestart + (numslots * _pointer.size)", deep=True)]
     ctx.ob(rk, len(wrap) == 1 and RK.has(wrap[0].body, "slotpos = tablestart") and RK.has(rks, "slotpos += _pointer.size", deep=True),
            "the reader's probe wraps to the start of the table")
+    # every iteration of the probe loop that does not return advances to the next slot (a `continue` that skips the advance
+    # re-reads the same slot for the rest of the loop and reports the key absent)
+    g_rk = cfgmod.cfg_of(rk)
+    fors = [n_ for n_ in g_rk.nodes if n_.kind == "for" and isinstance(n_.ast, ast.For) and "numslots" in norm.canon(n_.ast.iter)]
+    stuck = None
+    if len(fors) == 1:
+        def is_adv(n_):
+            a_ = n_.ast
+            return n_.kind == "stmt" and isinstance(a_, ast.AugAssign) and isinstance(a_.op, ast.Add) and RK.eq(a_.target, "slotpos")
+        for (st_, lab) in fors[0].succs:
+            if lab != "iter":
+                continue
+            if is_adv(st_):
+                continue
+            pth = cfgmod.find_path(g_rk, st_, lambda n_: n_ is fors[0], avoid_pred=is_adv)
+            if pth is not None:
+                stuck = [st_] + pth
+    ctx.ob(rk, len(fors) == 1 and stuck is None, "every iteration of the probe loop advances slotpos before the next one",
+           path=cfgmod.path_text(stuck) if stuck else None)
     cl = hw.methods["close"]
     CL = pm.Alpha(cl)
     order = [c for c in norm.calls_in(cl.node) if norm.call_name(c) in ("_write_hashes", "_write_directory", "_write_extras", "write_int")]
